@@ -1067,6 +1067,141 @@ func c14G9who(l *core.Ledger, r *rt) {
 // (or be reported by G3's comparison) if a node's addr field keeps every
 // component of the resolved address. The rule follows the data dependences of
 // every value stored into RawNode.addr back to their sources.
+// addrDependence reports what a value stored as a node's address depends on:
+// the resolved address as a whole (String()), the caller's raw text, which
+// components of the resolved address, and what the walk could not see through.
+func addrDependence(st *ssa.Store) (whole, raw bool, parts map[string]bool, opaque string) {
+	whole, raw, opaque = false, false, ""
+	parts = map[string]bool{}
+	seen := map[ssa.Value]bool{}
+	var walk func(v ssa.Value, depth int)
+	walk = func(v ssa.Value, depth int) {
+		if v == nil || seen[v] || depth > 40 {
+			return
+		}
+		seen[v] = true
+		switch x := v.(type) {
+		case *ssa.Const, *ssa.Global, *ssa.Function, *ssa.Builtin:
+		case *ssa.Parameter:
+			if b, isB := x.Type().Underlying().(*types.Basic); isB && b.Kind() == types.String {
+				raw = true
+			} else if isNamed(x.Type(), "net", "TCPAddr") {
+				whole = true // an address handed in as a whole
+			}
+		case *ssa.Call:
+			cc := &x.Call
+			if sx.StaticCalleeName(cc) == "(*net.TCPAddr).String" || sx.StaticCalleeName(cc) == "net.(*TCPAddr).String" {
+				whole = true
+				return
+			}
+			if f := cc.StaticCallee(); f != nil && f.Signature.Recv() != nil && f.Name() == "String" && isNamed(f.Signature.Recv().Type(), "net", "TCPAddr") {
+				whole = true
+				return
+			}
+			if cc.IsInvoke() {
+				walk(cc.Value, depth+1)
+			} else if _, isB := cc.Value.(*ssa.Builtin); !isB {
+				if cc.StaticCallee() == nil {
+					walk(cc.Value, depth+1)
+				}
+			}
+			for _, a := range cc.Args {
+				walk(a, depth+1)
+			}
+		case *ssa.Extract:
+			walk(x.Tuple, depth+1)
+		case *ssa.UnOp:
+			if x.Op == token.MUL {
+				if fa2, isFA := x.X.(*ssa.FieldAddr); isFA && isNamed(fa2.X.Type(), "net", "TCPAddr") {
+					if fl := fieldOf(fa2.X.Type(), fa2.Field); fl != nil {
+						parts[fl.Name()] = true
+					}
+					return
+				}
+				if al, isAl := x.X.(*ssa.Alloc); isAl {
+					for _, ref := range *al.Referrers() {
+						if s2, isSt := ref.(*ssa.Store); isSt && s2.Addr == ssa.Value(al) {
+							walk(s2.Val, depth+1)
+						}
+					}
+					return
+				}
+				if fa2, isFA := x.X.(*ssa.FieldAddr); isFA {
+					// a field of some other struct (for instance the node under construction):
+					// follow the stores into that field in this function
+					fl := fieldOf(fa2.X.Type(), fa2.Field)
+					found := false
+					sx.AllInstrs(x.Parent(), func(_ sx.Node, in2 ssa.Instruction) {
+						if s2, isSt := in2.(*ssa.Store); isSt {
+							if fa3, isFA3 := s2.Addr.(*ssa.FieldAddr); isFA3 && fieldOf(fa3.X.Type(), fa3.Field) == fl {
+								found = true
+								walk(s2.Val, depth+1)
+							}
+						}
+					})
+					if !found {
+						opaque = "load of " + fl.Name()
+					}
+					return
+				}
+			}
+			walk(x.X, depth+1)
+		case *ssa.Field:
+			if isNamed(x.X.Type(), "net", "TCPAddr") {
+				if fl := fieldOf(x.X.Type(), x.Field); fl != nil {
+					parts[fl.Name()] = true
+				}
+				return
+			}
+			walk(x.X, depth+1)
+		case *ssa.BinOp:
+			walk(x.X, depth+1)
+			walk(x.Y, depth+1)
+		case *ssa.Phi:
+			for _, e := range x.Edges {
+				walk(e, depth+1)
+			}
+		case *ssa.Convert:
+			walk(x.X, depth+1)
+		case *ssa.ChangeType:
+			walk(x.X, depth+1)
+		case *ssa.MakeInterface:
+			walk(x.X, depth+1)
+		case *ssa.ChangeInterface:
+			walk(x.X, depth+1)
+		case *ssa.Slice:
+			walk(x.X, depth+1)
+		case *ssa.Alloc:
+			for _, ref := range *x.Referrers() {
+				switch u := ref.(type) {
+				case *ssa.Store:
+					if u.Addr == ssa.Value(x) {
+						walk(u.Val, depth+1)
+					}
+				case *ssa.IndexAddr:
+					for _, r2 := range *u.Referrers() {
+						if s2, isSt := r2.(*ssa.Store); isSt && s2.Addr == ssa.Value(u) {
+							walk(s2.Val, depth+1)
+						}
+					}
+				}
+			}
+		case *ssa.IndexAddr:
+			walk(x.X, depth+1)
+		case *ssa.Index:
+			walk(x.X, depth+1)
+		case *ssa.Lookup:
+			walk(x.X, depth+1)
+		case *ssa.FieldAddr:
+			walk(x.X, depth+1)
+		default:
+			opaque = fmt.Sprintf("%T", v)
+		}
+	}
+	walk(st.Val, 0)
+	return
+}
+
 func c14G10(l *core.Ledger, r *rt) {
 	n := 0
 	for _, f := range allFuncs(l.Prog, r.pkg) {
@@ -1086,134 +1221,7 @@ func c14G10(l *core.Ledger, r *rt) {
 			}
 			n++
 			key := fmt.Sprintf("%s/addr-store%d", fnKey(f), n)
-			whole, raw, opaque := false, false, ""
-			parts := map[string]bool{}
-			seen := map[ssa.Value]bool{}
-			var walk func(v ssa.Value, depth int)
-			walk = func(v ssa.Value, depth int) {
-				if v == nil || seen[v] || depth > 40 {
-					return
-				}
-				seen[v] = true
-				switch x := v.(type) {
-				case *ssa.Const, *ssa.Global, *ssa.Function, *ssa.Builtin:
-				case *ssa.Parameter:
-					if b, isB := x.Type().Underlying().(*types.Basic); isB && b.Kind() == types.String {
-						raw = true
-					} else if isNamed(x.Type(), "net", "TCPAddr") {
-						whole = true // an address handed in as a whole
-					}
-				case *ssa.Call:
-					cc := &x.Call
-					if sx.StaticCalleeName(cc) == "(*net.TCPAddr).String" || sx.StaticCalleeName(cc) == "net.(*TCPAddr).String" {
-						whole = true
-						return
-					}
-					if f := cc.StaticCallee(); f != nil && f.Signature.Recv() != nil && f.Name() == "String" && isNamed(f.Signature.Recv().Type(), "net", "TCPAddr") {
-						whole = true
-						return
-					}
-					if cc.IsInvoke() {
-						walk(cc.Value, depth+1)
-					} else if _, isB := cc.Value.(*ssa.Builtin); !isB {
-						if cc.StaticCallee() == nil {
-							walk(cc.Value, depth+1)
-						}
-					}
-					for _, a := range cc.Args {
-						walk(a, depth+1)
-					}
-				case *ssa.Extract:
-					walk(x.Tuple, depth+1)
-				case *ssa.UnOp:
-					if x.Op == token.MUL {
-						if fa2, isFA := x.X.(*ssa.FieldAddr); isFA && isNamed(fa2.X.Type(), "net", "TCPAddr") {
-							if fl := fieldOf(fa2.X.Type(), fa2.Field); fl != nil {
-								parts[fl.Name()] = true
-							}
-							return
-						}
-						if al, isAl := x.X.(*ssa.Alloc); isAl {
-							for _, ref := range *al.Referrers() {
-								if s2, isSt := ref.(*ssa.Store); isSt && s2.Addr == ssa.Value(al) {
-									walk(s2.Val, depth+1)
-								}
-							}
-							return
-						}
-						if fa2, isFA := x.X.(*ssa.FieldAddr); isFA {
-							// a field of some other struct (for instance the node under construction):
-							// follow the stores into that field in this function
-							fl := fieldOf(fa2.X.Type(), fa2.Field)
-							found := false
-							sx.AllInstrs(x.Parent(), func(_ sx.Node, in2 ssa.Instruction) {
-								if s2, isSt := in2.(*ssa.Store); isSt {
-									if fa3, isFA3 := s2.Addr.(*ssa.FieldAddr); isFA3 && fieldOf(fa3.X.Type(), fa3.Field) == fl {
-										found = true
-										walk(s2.Val, depth+1)
-									}
-								}
-							})
-							if !found {
-								opaque = "load of " + fl.Name()
-							}
-							return
-						}
-					}
-					walk(x.X, depth+1)
-				case *ssa.Field:
-					if isNamed(x.X.Type(), "net", "TCPAddr") {
-						if fl := fieldOf(x.X.Type(), x.Field); fl != nil {
-							parts[fl.Name()] = true
-						}
-						return
-					}
-					walk(x.X, depth+1)
-				case *ssa.BinOp:
-					walk(x.X, depth+1)
-					walk(x.Y, depth+1)
-				case *ssa.Phi:
-					for _, e := range x.Edges {
-						walk(e, depth+1)
-					}
-				case *ssa.Convert:
-					walk(x.X, depth+1)
-				case *ssa.ChangeType:
-					walk(x.X, depth+1)
-				case *ssa.MakeInterface:
-					walk(x.X, depth+1)
-				case *ssa.ChangeInterface:
-					walk(x.X, depth+1)
-				case *ssa.Slice:
-					walk(x.X, depth+1)
-				case *ssa.Alloc:
-					for _, ref := range *x.Referrers() {
-						switch u := ref.(type) {
-						case *ssa.Store:
-							if u.Addr == ssa.Value(x) {
-								walk(u.Val, depth+1)
-							}
-						case *ssa.IndexAddr:
-							for _, r2 := range *u.Referrers() {
-								if s2, isSt := r2.(*ssa.Store); isSt && s2.Addr == ssa.Value(u) {
-									walk(s2.Val, depth+1)
-								}
-							}
-						}
-					}
-				case *ssa.IndexAddr:
-					walk(x.X, depth+1)
-				case *ssa.Index:
-					walk(x.X, depth+1)
-				case *ssa.Lookup:
-					walk(x.X, depth+1)
-				case *ssa.FieldAddr:
-					walk(x.X, depth+1)
-				default:
-					opaque = fmt.Sprintf("%T", v)
-				}
-			}
-			walk(st.Val, 0)
+			whole, raw, parts, opaque := addrDependence(st)
 			switch {
 			case whole:
 				l.OK("C14-G10", key, st.Pos(), "depends on the resolved address's String()")
@@ -1408,7 +1416,9 @@ func c14G12(l *core.Ledger) {
 				for _, ifi := range ifsOn(fn, e) {
 					_ = ifi
 				}
-				m := func(o sx.Origin) bool { return o.V == ssa.Value(e) || (o.Kind == sx.KExtract && o.V == ssa.Value(call)) }
+				m := func(o sx.Origin) bool {
+					return o.V == ssa.Value(e) || (o.Kind == sx.KExtract && o.V == ssa.Value(call))
+				}
 				sx.AllInstrs(fn, func(_ sx.Node, in ssa.Instruction) {
 					if ifi, isIf := in.(*ssa.If); isIf && isErrNonNil(ifi, m) != 0 {
 						ee := errEdge(ifi, m, true)
